@@ -125,3 +125,13 @@ Theorem C03_from_composite_adopts : forall h s d,
   tm_from_composite_fields h s d = Ok {| tm_sph := h; tm_sec := s; tm_src := d; tm_crc := None |}.
 Proof. exact tm_from_composite_adopts. Qed.
 Print Assumptions C03_from_composite_adopts.
+
+(* the constructor's components handed to from_composite_fields pack to the standard's octets *)
+Theorem C03_from_composite_layout : forall service subservice apid seq msgcnt ref dest version stamp src,
+  tm_args_valid service subservice apid seq msgcnt ref dest version stamp src ->
+  exists t u t', tm_new service subservice stamp src apid seq msgcnt ref dest version = Ok t /\
+    tm_from_composite_fields (tm_sph t) (tm_sec t) (tm_src t) = Ok u /\
+    tm_pack u = Ok (tm_layout service subservice apid seq msgcnt ref dest version stamp src, t') /\
+    tm_packet_len u = len (tm_layout service subservice apid seq msgcnt ref dest version stamp src).
+Proof. exact tm_from_composite_layout. Qed.
+Print Assumptions C03_from_composite_layout.
